@@ -10,6 +10,14 @@
 (*   rec     "had the process died here": D = what a queue reopened on a copy *)
 (*           of the directory delivered before the sentinel                   *)
 (*   skip    an event irrelevant at this level                                *)
+(*   gen2    second generation: a queue reopened on one of the crash          *)
+(*           snapshots of the history is used further (put / take2 / sync)    *)
+(*           and crashes again.  Its logical content is L = X ++ new puts,    *)
+(*           X = what the recovery of that snapshot delivered (x = |X|,       *)
+(*           xs = how many of them were written before the last completed     *)
+(*           sync of the first generation); ids are positions in L.           *)
+(*   take2   generation 2 handed the message at position id of L to the       *)
+(*           consumer (abs = its identity, 0 = not a message ever enqueued)   *)
 (* A trace is accepted iff every line is matched (high-water mark = Len).     *)
 EXTENDS QueueContractOps, Json, TLC, TLCExt, IOUtils
 
@@ -29,10 +37,20 @@ Is(e) == l <= Len(TLog) /\ Ev.ev = e /\ l' = l + 1
 TInit == l = 1 /\ nenq = 0 /\ consumed = 0 /\ wSync = 0 /\ cSync = 0
 
 THist  == Is("hist") /\ nenq' = 0 /\ consumed' = 0 /\ wSync' = 0 /\ cSync' = 0
+\* everything the recovery delivers lies within the persisted positions, the start-up truncation
+\* makes the files agree with them; the contract only counts what a completed sync covered (xs)
+TGen2  == /\ Is("gen2") /\ Ev.xs <= Ev.x
+          /\ nenq' = Ev.x /\ wSync' = Ev.xs /\ consumed' = 0 /\ cSync' = 0
 TSkip  == Is("skip") /\ UNCHANGED <<nenq, consumed, wSync, cSync>>
 TPut   == Is("put") /\ Ev.id = nenq + 1 /\ nenq' = nenq + 1 /\ UNCHANGED <<consumed, wSync, cSync>>
 TTake  == /\ Is("take") /\ consumed < nenq
           /\ (Strict09 => Ev.id = consumed + 1)          \* FIFO, intact, exactly once
+          /\ consumed' = consumed + 1 /\ UNCHANGED <<nenq, wSync, cSync>>
+\* generation 2 is a reopened queue: it delivers only messages that were enqueued, intact (abs # 0);
+\* the marks are positions in L, so the message handed out must be the next one of L
+TTake2 == /\ Is("take2") /\ consumed < nenq
+          /\ (Strict08 => Ev.abs # 0)
+          /\ Ev.id = consumed + 1
           /\ consumed' = consumed + 1 /\ UNCHANGED <<nenq, wSync, cSync>>
 TSync  == Is("sync") /\ wSync' = nenq /\ cSync' = consumed /\ UNCHANGED <<nenq, consumed>>
 TDepth == /\ Is("depth") /\ (Strict09 => Ev.v = nenq - consumed)
@@ -42,7 +60,7 @@ TRec   == /\ Is("rec")
                           /\ RecoveryOK(Ev.D, nenq, consumed, wSync, cSync))
           /\ UNCHANGED <<nenq, consumed, wSync, cSync>>
 
-TNext == THist \/ TSkip \/ TPut \/ TTake \/ TSync \/ TDepth \/ TRec
+TNext == THist \/ TGen2 \/ TSkip \/ TPut \/ TTake \/ TTake2 \/ TSync \/ TDepth \/ TRec
 TSpec == TInit /\ [][TNext]_tvars
 
 HighWater == TLCSet(1, IF l - 1 > TLCGet(1) THEN l - 1 ELSE TLCGet(1))
